@@ -55,7 +55,7 @@ theorem subpacket_length_ranges :
     Gen.subEncOneMax = Gen.subLenOneMax ∧ Gen.subEncTwoMax = (Gen.subLenTwoMax - 192) * 256 + 192 + 255 := by decide
 
 theorem misc_sizes :
-    Gen.sigV3HashedLen = 5 ∧ Gen.wrSigV3HashedLen = Gen.sigV3HashedLen ∧ Gen.revKeyLen = 22 ∧ Gen.issuerLen = 8 ∧
+    Gen.sigV3HashedLen = 5 ∧ Gen.wrSigV3HashedLen = Gen.sigV3HashedLen ∧ Gen.revKeyFpLenA = 20 ∧ Gen.revKeyFpLenB = 32 ∧ Gen.fixD5eRevKeyLenTruthful = 1 ∧ Gen.issuerLen = 8 ∧
     Gen.mdcHashLen = 20 ∧ Gen.seipdSaltLen = 32 ∧ Gen.opsFpLen = 32 ∧ Gen.opsOverhead = 5 ∧
     Gen.wireSkesk6FieldsMax = 255 := by decide
 
